@@ -4,7 +4,7 @@ from .c08 import text, ansic, CH
 
 PROP = "C06"
 CH.update({"V": "É"})
-FAMS = ["sub", "rem", "rep", "case", "dflt"]
+FAMS = ["sub", "rem", "remx", "rep", "case", "dflt"]
 
 
 def model_rows(fam, vl, nch=8):
@@ -48,7 +48,7 @@ def qpat(p):
 def build_script(group):
     """group: rows sharing (v, b). Each row prints  R<idx> NUL <fields...> NUL"""
     v, b = group[0]["v"], group[0]["b"]
-    L = []
+    L = ["shopt -s extglob"]
     setup = "v=%s" % ansic(text(v)) if b == "set" else ("v=" if b == "null" else "unset v")
     L.append(setup)
     for i, row in enumerate(group):
